@@ -161,7 +161,11 @@ verdict_t check_solve(const acase_t& c, ctx_t& ctx)
         {
             solver->parameter("solver::quasi::initialization") = std::string("scaled");
         }
-        result = solver->minimize(function, x0, nano::make_null_logger());
+        // half of the cases run a COPY of the configured object (as ml::params_t and per-thread copies do); derived from generated data, so that old replay files keep their meaning
+        const bool via_clone = (static_cast<long long>(std::floor(std::fabs(x0(0)) * 1e6)) % 2) == 1;
+        ctx.label_if(via_clone, "solver-used-through-clone");
+        const auto cloned = via_clone ? solver->clone() : nano::rsolver_t{};
+        result            = (via_clone ? *cloned : *solver).minimize(function, x0, nano::make_null_logger());
     }
     catch (const std::exception& e)
     {
@@ -455,7 +459,11 @@ verdict_t check_truthful(const bcase_t& c, ctx_t& ctx)
         solver->parameter("solver::tolerance") = std::make_tuple(c.c1, c.c2);
         solver->parameter("solver::epsilon")   = c.epsilon;
         solver->parameter("solver::max_evals") = c.max_evals;
-        result                                 = solver->minimize(*function, x0, nano::make_null_logger());
+        // half of the cases run a COPY of the configured object (as ml::params_t and per-thread copies do); derived from generated data, so that old replay files keep their meaning
+        const bool via_clone = (static_cast<long long>(std::floor(std::fabs(x0(0)) * 1e6)) % 2) == 1;
+        ctx.label_if(via_clone, "solver-used-through-clone");
+        const auto cloned = via_clone ? solver->clone() : nano::rsolver_t{};
+        result            = (via_clone ? *cloned : *solver).minimize(*function, x0, nano::make_null_logger());
     }
     catch (const std::exception& e)
     {
